@@ -31,8 +31,8 @@ Consume(i) == LET done == ahead \cup {i}
 TReset(i) == /\ Trace[i].event = "Reset" /\ i = l /\ ahead = {}
              /\ p' = Trace[i].p
              /\ now' = 0 /\ armed' = 0 /\ pending' = {} /\ cancelled' = FALSE /\ cancelAt' = -1 /\ fired' = <<>>
-             /\ act' = [name |-> "init", part |-> part, p |-> Trace[i].p, cutoff |-> Cutoff]
-             /\ UNCHANGED <<part, lastAct, cvars>>
+             /\ act' = [name |-> "init", part |-> part, p |-> Trace[i].p, cutoff |-> Cutoff, weaken |-> wk]
+             /\ UNCHANGED <<part, wk, lastAct, cvars, cbad>>
 TArm(i) == /\ Trace[i].event = "Arm"
            /\ LET t == Max2(now, Trace[i].lo) IN
               t <= Trace[i].hi /\ ~cancelled /\ DoArm(Trace[i].r, t) /\ now' = t
